@@ -185,7 +185,7 @@ ROUND12 = {
 ROUND13 = {
  "C01": "A second real-binary case: only the global scrape_interval changes, the coordinator reloads, and every snapshot of the next 50 cycles must show every target on some shard.",
  "C04": "Plus a real-process case in which the collect[] param arrives with a reload together with a target that exceeds the limit only with both collectors.",
- "C10": "One case in forty restarts the sidecar while the reload callback fails (Prometheus not up yet) and checks the update that follows once more 1.3 s later.",
+ "C10": "One case in forty (thorough: one in four hundred) restarts the sidecar while the reload callback fails (Prometheus not up yet) and checks the update that follows once more 1.3 s later.",
  "C12": "Plus 2 cases in which a reload raises the job's scrape_timeout from 1 s to 120 s and a target then answers completely after 1.6 s.",
 }
 
